@@ -400,9 +400,52 @@ def gen_hist(rng):
         ops.append(rng.choice([["rn"], rrender(rng, file_src), ["rs", rterm(rng), rterm(rng)]]))
         for _ in range(rng.randint(0, 3)):
             ops.append(rhist_op(rng, d, file_src))
+    elif rng.random() < 0.35:
+        # the property setters with a value EQUAL to the current one: after a manual size, after a
+        # ratio / terminal / cell change, after the other dimension's setter — the other dimension
+        # must be recomputed every time
+        shape = "setter-same"
+        d["ow"], d["oh"] = rdim(rng, 3000), rdim(rng, 3000)
+        w, h = rng.choice([1, 2, rng.randint(1, 200)]), rng.choice([1, 2, rng.randint(1, 100)])
+        change = lambda: rng.choice([["sr", ["v", f2h(rratio(rng))]], ["rs", rterm(rng), rterm(rng)],  # noqa: E731
+                                     ["sc", rng.choice([None, [rng.randint(1, 24), rng.randint(1, 48)]])],
+                                     ["sr", rbad_ratio(rng)]])
+        k = rng.random()
+        if k < 0.3:
+            ops += [["st", w, h], rng.choice([["sw", ["int", w]], ["sh", ["int", h]]])]
+        elif k < 0.55:
+            ops += [["sw", ["int", w]], change(), ["sw", ["int", w]]]
+        elif k < 0.75:
+            ops += [["sh", ["int", h]], change(), ["sh", ["int", h]]]
+        elif k < 0.85:
+            ops += [["sw", ["int", w]], ["sh", ["int", rng.choice([1, 1, 2, h])]], ["sw", ["int", w]]]
+        elif k < 0.93:
+            ops += [["ss", ["int", w], ["none"], rframe(rng, d)], change(), ["sw", ["int", w]]]
+        else:
+            ops += [["st", w, h], change(), ["sw", ["int", w]], change(), ["sh", ["int", h]]]
+        for _ in range(rng.randint(0, 4)):
+            ops.append(rhist_op(rng, d, file_src))
     else:
         for _ in range(rng.randint(2, 10)):
             ops.append(rhist_op(rng, d, file_src))
+    # a setter's value is often the dimension the image is known (by construction) to have already
+    kw = kh = None
+    for o in ops:
+        if o[0] in ("sw", "sh") and o[1][0] == "int" and shape != "setter-same":
+            known = kw if o[0] == "sw" else kh
+            if known is not None and rng.random() < 0.5:
+                o[1] = ["int", known]
+        if o[0] == "st":
+            if o[1] > 0 and o[2] > 0:
+                kw, kh = o[1], o[2]
+        elif o[0] == "sd":
+            kw = kh = None
+        elif o[0] in ("ss", "sw", "sh"):
+            a, b = (o[1], o[2]) if o[0] == "ss" else (o[1], ["none"]) if o[0] == "sw" else (["none"], o[1])
+            bad = any(x[0] == "int" and x[1] <= 0 for x in (a, b)) or (a[0] != "none" and b[0] != "none" and not (a[0] == b[0] == "int"))
+            if not bad:
+                kw = a[1] if a[0] == "int" else None
+                kh = b[1] if b[0] == "int" else None
     d["ops"] = ops
     toks = []
     for o in ops:
@@ -953,7 +996,10 @@ def _run_history(d, img, path, watch):
                 cr = f2h(float(term_image.get_cell_ratio()))
             except Exception as e:
                 cr = exc_name(e)
-            watch.append((o, item + (fresh, cr), img))
+            snap = {"cols": env.state["term_size"][0], "lines": env.state["term_size"][1],
+                    "cell": None if env.state["cell_size"] is None else list(env.state["cell_size"]),
+                    "ratio": None if term_image._cell_ratio is None else f2h(float(term_image._cell_ratio))}
+            watch.append((o, item + (fresh, cr, snap), img))
         if o[0] != "init":
             out.append(f"{obs} | {fmt_stored(img.size)} | {item[2]}")
     return out
@@ -968,7 +1014,16 @@ def check_history(d):
     held = Size.FIT
     key = f"hist/{d['fam']}/{d['ow']}x{d['oh']}/" + ";".join(" ".join(str(x) for x in o) for o in d["ops"])[:300]
     prev_rendered = prev_cr = None
-    for i, (o, (obs, size, rendered, fresh, cr), img) in enumerate(watch, start=-1):  # -1 = the state before op 0
+    for i, (o, (obs, size, rendered, fresh, cr, snap), img) in enumerate(watch, start=-1):  # -1 = the state before op 0
+        if o[0] in ("sw", "sh") and o[1][0] == "int" and o[1][1] >= 1 and not obs.startswith("err") and isinstance(size, tuple):
+            # `image.width = v` / `image.height = v`: the other dimension is the aspect-preserving value for the
+            # terminal and cell ratio of this moment — also when v equals the dimension the image already had
+            dd = dict(snap, fam=d["fam"], ow=d["ow"], oh=d["oh"], frame=[0, -2],
+                      w=o[1] if o[0] == "sw" else ["none"], h=o[1] if o[0] == "sh" else ["none"])
+            f = check_sizing(dd, size[0], size[1], f"setter/{key}")
+            if f is not None:
+                f.what = f"op {i} (image.{'width' if o[0] == 'sw' else 'height'} = {o[1][1]}): size is {tuple(size)}: " + f.what
+                return f
         if rendered.startswith("ok "):
             rw_, rh_ = (int(x) for x in rendered.split(" ")[1:])
             if rw_ < 1 or rh_ < 1:
